@@ -77,6 +77,8 @@ pub struct Opts {
     pub gates_as_control: bool,
     /// use the alias-preserving object graph as state key (K_shape)
     pub shape_key: bool,
+    /// record (script, k, output) of every run (C07 replays them elsewhere)
+    pub collect_runs: bool,
     /// answers tried for a mutator gate besides the default 0.0 (empty = just 2.0, which declines at every rate in [0,1])
     pub gate_alphabet: Vec<f64>,
 }
@@ -95,6 +97,7 @@ impl Default for Opts {
             gates_as_control: true,
             shape_key: false,
             gate_alphabet: vec![],
+            collect_runs: false,
         }
     }
 }
@@ -160,6 +163,7 @@ pub struct Outcome {
     /// shortest witness script per emitted opcode (C12)
     pub witnesses: BTreeMap<u8, (Vec<u8>, usize)>,
     pub sample_scripts: Vec<(Vec<u8>, usize)>,
+    pub runs: Vec<(Vec<u8>, usize, Vec<u8>)>,
 }
 
 pub fn gen_class(t: u8) -> u8 {
@@ -245,6 +249,7 @@ struct Expansion {
     found: Vec<Found>,
     outputs: Vec<Vec<u8>>,
     witnesses: BTreeMap<u8, (Vec<u8>, usize)>,
+    runs: Vec<(Vec<u8>, usize, Vec<u8>)>,
 }
 
 pub struct Explorer<'a> {
@@ -307,6 +312,9 @@ impl<'a> Explorer<'a> {
                 }
                 None => exp.found.push(Found { finding: f, cfg: cfg.clone(), script: script.to_vec() }),
             }
+        }
+        if self.opts.collect_runs {
+            exp.runs.push((script.to_vec(), k, res.bytes().map(|b| b.to_vec()).unwrap_or_default()));
         }
         if let Some(b) = res.bytes() {
             if self.opts.xval_cap > 0 && !self.xval_full.load(std::sync::atomic::Ordering::Relaxed) {
@@ -508,6 +516,7 @@ impl<'a> Explorer<'a> {
         let mut xval_seen: HashSet<Vec<u8>> = HashSet::new();
         let mut witnesses: BTreeMap<u8, (Vec<u8>, usize)> = BTreeMap::new();
         let mut samples: Vec<(Vec<u8>, usize)> = vec![];
+        let all_runs: std::cell::RefCell<Vec<(Vec<u8>, usize, Vec<u8>)>> = std::cell::RefCell::new(vec![]);
 
         let mut absorb = |exp: Expansion,
                           stats: &mut Stats,
@@ -517,6 +526,7 @@ impl<'a> Explorer<'a> {
                           witnesses: &mut BTreeMap<u8, (Vec<u8>, usize)>|
          -> Vec<Succ> {
             stats.add(&exp.stats);
+            all_runs.borrow_mut().extend(exp.runs);
             for f in exp.found {
                 let key = format!("{}|{}", f.finding.prop, f.finding.class);
                 match found.get(&key) {
@@ -636,6 +646,7 @@ impl<'a> Explorer<'a> {
             xval_outputs: xval,
             witnesses,
             sample_scripts: samples,
+            runs: all_runs.into_inner(),
         }
     }
 }
